@@ -609,7 +609,9 @@ def handleAllinfoNone (c : Cfg) (j : Nat) : M Unit := do
 /-- INSTANCE_FAILURE notification about `j` -/
 def handleFailure (c : Cfg) (j : Nat) : M Unit := do
   if !(← isValid j) then return
-  setPeerState c j .failed
+  -- `Context.on_instance_failure`: a late notification about an instance already invalidated is ignored
+  if (← getPeer j).state.active then
+    setPeerState c j .failed
 
 /-- `FiniteStateMachine.on_restart` / `on_shutdown` -/
 def handleEnd (c : Cfg) (shutdown : Bool) : M Unit := do
